@@ -126,7 +126,9 @@ def dechunkRewrite (t : Tree) (s : RespState) (c : ChunkState) : RespState :=
     nameEq n kContentLength || nameEq n kTransferEncoding || nameEq n kTrailer
   let trailer := if t.repaired then c.trailer.filter fun h => !framing h.name else c.trailer
   let hs := trailer.foldl addHeader s.headers
-  let te := (headerTokens hs kTransferEncoding).dropLast
+  let te0 := (headerTokens hs kTransferEncoding).dropLast
+  -- current tree: empty list elements carry no coding and are not written back (RFC 7230 §7)
+  let te := if t.repaired then te0.filter (fun c => !c.isEmpty) else te0
   let hs := if te.isEmpty then removeHeader hs kTransferEncoding
             else setHeader hs kTransferEncoding (joinWith (if t.repaired then [COMMA, SP] else [SP]) te)
   let hs := addHeader hs ⟨kContentLength, natToDec c.buffer.length⟩
